@@ -5,13 +5,16 @@ SPEC = {
     "assumptions": [
         "the allocation registry sees every operator new/delete; blocks are attributed to the library when allocated inside a library call",
         "integers are modelled with std::to_string, floating point with snprintf(\"%g\"), wide text with the reference UTF-8 encoder",
+        "short / unsigned short / wchar_t / char16_t / char32_t / char8_t / bool have no operator<< of their own and are written by the int / unsigned overload after integral promotion (checked at compile time; a type that gets its own overload is no longer generated)",
+        "ST buffers and ST::null reach the stream through their implicit conversion to ST::string; std::filesystem::path keeps the bytes it was built from (POSIX)",
+        "to_string(true, substitute_invalid) on ill-formed content is judged by C02's reference (ref_unicode.h: each offending byte becomes U+FFFD, well-formed and tolerated sequences are kept)",
         "self-move-assignment of a stream is outside the property's quantifier and is not generated",
         "termination is judged by the CPU-time watchdog (20 s per case) plus 3x replay, never by wall-clock",
     ],
     "claim": {
         "category": "exploration",
         "technique": "stateful model-based generation (rapidcheck byte-decoded histories, libFuzzer) against a std::string model per stream, with allocation-registry ownership/leak invariants after every step",
-        "text": "Generated histories over three heap-placed streams append text of every supported kind with sizes aimed at the in-object capacity and each doubling boundary, truncate/erase to every relation of n to size, and move streams in every storage mode; after every step size() and raw_buffer() must equal a byte-string model, to_string() must validate/transcode those bytes, a moved-from stream must be empty and usable, and the registry must show exclusive ownership, no double free and no leak.",
+        "text": "Generated histories over three heap-placed streams append text of every supported kind with sizes aimed at the in-object capacity and each doubling boundary, truncate/erase to every relation of n to size, and move streams in every storage mode; after every step size() and raw_buffer() must equal a byte-string model, to_string() must validate/transcode those bytes, a moved-from stream must be empty and usable, and the registry must show exclusive ownership, no double free and no leak. Two histories in three use the extended operation table: char8_t text, views of every width over unterminated exact-size blocks, wide / UTF-16 / UTF-32 text of 255-4096 code points and with embedded U+0000, ST buffers, std::filesystem::path, every null / zero-length form, append_char up to 65535, numbers of every type written at exactly capacity-k bytes (k = 0..21, capacities 256-8192), promoted integer types, truncate/erase followed by an append landing on 256..4096 (and one off), to_string with every validation mode in both readings, move-assignment chains, streams moved from and refilled repeatedly, assignment from temporaries, chained inserters, and appends whose growth allocation is made to fail (the stream's reported state is adopted and must remain a valid stream for the rest of the history).",
         "level_note": "Sampled histories (<= 80 operations, total size <= ~64 KiB per stream). Absence beyond the explored histories is not established.",
     },
 }
